@@ -38,7 +38,7 @@ def main():
         engines=[dict(name='coq-pt', path='/verif/coq', serves_properties=sorted(CHECKS),
                       kind_free_text='Coq 8.16.1 generic theory (coq/theories, coq/Props) + per-run generated instance (coq/gen) + Python correspondence drivers (tools/)')],
         checks=checks,
-        notes='See DESIGN.md. Known findings: known_findings.json. fix: commits in /repo: 41122ed 1152718 4f09b7e fc44bb3.',
+        notes='See DESIGN.md. Known findings: known_findings.json. fix: commits in /repo: 41122ed 1152718 4f09b7e fc44bb3 581cf1c edf3d50 da4323a 38a335f 38e7edd 6f69098 8a08f42 08fe120 422cec3 a424a77 e09a8c5 (each with the pinned suite at its baseline).',
         not_applicable=na)
     (ROOT / 'MANIFEST.json').write_text(json.dumps(man, indent=1))
     try:
